@@ -2026,7 +2026,20 @@ class Interp:
                 self.emit(w.sink, {"t": "Raw", "v": args[1], "sp": sp, "fn": self.cur_fn()})
                 return UNIT
             if last in PRIMS:
-                self.emit(w.sink, {"t": "Prim", "kind": PRIMS[last], "m": last, "args": args[1:], "sp": sp, "fn": self.cur_fn()})
+                pargs = list(args[1:])
+                if last == "write_bool" and pargs and self.concrete(pargs[0]) is None:
+                    # path-sensitive constant: `if flag { w.write_bool(flag) }` writes TRUE
+                    f_ = self.to_formula(pargs[0])
+                    pc_ = self.cur_cond()
+                    if pc_ is not True and f_ is not True and f_ is not False:
+                        try:
+                            if not F.counterexamples(pc_, f_, "implies"):
+                                pargs[0] = Const(True)
+                            elif not F.counterexamples(pc_, Not(f_), "implies"):
+                                pargs[0] = Const(False)
+                        except ValueError:
+                            pass
+                self.emit(w.sink, {"t": "Prim", "kind": PRIMS[last], "m": last, "args": pargs, "sp": sp, "fn": self.cur_fn()})
                 return UNIT
             self.emit(w.sink, {"t": "Opaque", "what": "unmodelled writer method %s" % last, "sp": sp})
             return UNIT
